@@ -293,7 +293,7 @@ theorem cp_flag (s t : Sq) (pr : Promo) :
   cases pr <;> exact ⟨by simp [Move.capturePromotion], by simp [Move.capturePromotion]⟩
 
 theorem mem_pawnsOf (bd : Board) (hc : Consistent bd) (p : Player) (s : Sq) :
-    mem (bd.pawnsOf p) s = true ↔ at' bd.squares s = some ⟨.pawn, p⟩ := mem_piecesOf bd hc .pawn p s
+    mem (bd.pawnsOf p) s = true ↔ at' bd.squares s = some ⟨.pawn, p⟩ := mem_kindOf bd hc .pawn p s
 
 theorem mem_available (bd : Board) (hc : Consistent bd) (cm : BB) (t : Sq) :
     mem (~~~bd.occupancy &&& cm) t = true ↔ (at' bd.squares t = none ∧ mem cm t = true) := by
